@@ -23,20 +23,14 @@ import (
 
 type scen struct {
 	init    string // per initial context: 'L' live, 'X' already cancelled, 'B' context.Background()
-	cancels uint   // bit i set: initial context i (a live one) gets a canceller thread
-	adds    string // adder script: 'L' live never cancelled, 'K' live, cancelled by a thread spawned after Add returned, 'X' already ended, 'B' Background
+	cancels string // canceller thread: the digits are the (live) initial contexts it cancels, in this order
+	adds    string // adder script: 'L' Add live ctx, never cancelled; 'K' Add live ctx then cancel it at once; 'D' Add live ctx, cancel it after the last Add; 'X' Add already ended ctx; 'B' Add Background
 	cancel  bool   // a thread calls pool.Cancel()
 	sizes   int    // Size calls made by the size thread
 }
 
 func (s scen) name() string {
-	c := ""
-	for i := range s.init {
-		if s.cancels&(1<<uint(i)) != 0 {
-			c += fmt.Sprint(i)
-		}
-	}
-	n := fmt.Sprintf("init=%q cancel-members=%q add=%q", s.init, c, s.adds)
+	n := fmt.Sprintf("init=%q cancel-members=%q add=%q", s.init, s.cancels, s.adds)
 	if s.cancel {
 		n += " Cancel"
 	}
@@ -113,18 +107,23 @@ func mkExec(s scen) *mc.Exec {
 			c.endStep = mc.Step()
 			c.poolDoneEnd = poolDone()
 		}
-		for i := range s.init {
-			if s.cancels&(1<<uint(i)) == 0 {
-				continue
-			}
-			c, cancel := ctxs[i], cancelFns[i]
-			n := fmt.Sprintf("cancel-init%d", i)
-			harnessThreads[n] = true
-			mc.GoNamed(n, func() { end(c, cancel) })
+		if s.cancels != "" {
+			harnessThreads["canceller"] = true
+			mc.GoNamed("canceller", func() {
+				for _, d := range s.cancels {
+					end(ctxs[d-'0'], cancelFns[d-'0'])
+				}
+			})
 		}
 		if s.adds != "" {
 			harnessThreads["adder"] = true
 			mc.GoNamed("adder", func() {
+				var deferred []func()
+				defer func() {
+					for _, f := range deferred {
+						f()
+					}
+				}()
 				for i := 0; i < len(s.adds); i++ {
 					k := s.adds[i]
 					c := &cx{name: fmt.Sprintf("add%d(%c)", i, k), kind: k, liveAtOffer: k != 'X'}
@@ -143,9 +142,9 @@ func mkExec(s scen) *mc.Exec {
 					pool.Add(ctx)
 					a.end, a.endStep, a.doneAtEnd = tick(), mc.Step(), poolDone()
 					if k == 'K' {
-						n := fmt.Sprintf("cancel-add%d", i)
-						harnessThreads[n] = true
-						mc.GoNamed(n, func() { end(c, cancel) })
+						end(c, cancel)
+					} else if k == 'D' {
+						deferred = append(deferred, func() { end(c, cancel) })
 					}
 				}
 			})
@@ -381,69 +380,79 @@ func words(alpha string, min, max int) []string {
 	return out
 }
 
+// orders lists every sequence without repetition over the given digits
+// (every subset, every order).
+func orders(digits string) []string {
+	out := []string{""}
+	var rec func(cur string)
+	rec = func(cur string) {
+		for i := 0; i < len(digits); i++ {
+			if strings.IndexByte(cur, digits[i]) >= 0 {
+				continue
+			}
+			out = append(out, cur+string(digits[i]))
+			rec(cur + string(digits[i]))
+		}
+	}
+	rec("")
+	return out
+}
+
 func scenarios() []hx.Scenario {
 	var out []hx.Scenario
-	add := func(s scen) {
-		threads := 0
-		for i := range s.init {
-			if s.cancels&(1<<uint(i)) != 0 {
-				threads++
-			}
-		}
+	add := func(s scen, bound, minBound int, thoroughOnly bool) {
+		// one finding key per defect class: everything an Add can break is
+		// reachable only in the scenarios that have an adder
+		class := "Pool/done-exactly-when-members-ended"
 		if s.adds != "" {
-			threads += 1 + strings.Count(s.adds, "K")
-		}
-		if s.cancel {
-			threads++
-		}
-		if s.sizes > 0 {
-			threads++
-		}
-		class := "Pool/member-cancellation-order"
-		if strings.ContainsAny(s.adds, "LKB") {
-			class = "Pool/Add-racing-end-of-last-member"
-		} else if s.adds != "" {
-			class = "Pool/Add-ended-context"
+			class = "Pool/Add-after-all-members-ended-not-ignored"
 		}
 		sc := s
-		h := hx.Scenario{
-			Name: s.name(), Class: class,
+		out = append(out, hx.Scenario{
+			Name: s.name(), Class: class, ThoroughOnly: thoroughOnly,
 			// preemption bounding: choices among forced candidates are free
-			Opts: mc.Options{Bound: 3, MinBound: 3, MaxSteps: 2000},
+			Opts: mc.Options{Bound: bound, MinBound: minBound, MaxSteps: 2000},
 			Mk:   func() *mc.Exec { return mkExec(sc) },
-		}
-		// sizing: the small ones are completed to bound 3 in both tiers; the
-		// larger ones must complete bound 2 and go deeper while the budget lasts
-		switch {
-		case threads <= 3:
-		case threads <= 4:
-			h.QuickMin = hx.Ptr(2)
-		default:
-			h.Opts.MinBound = 2
-			h.ThoroughOnly = true
-		}
-		out = append(out, h)
+		})
 	}
 	inits := words("LX", 0, 3)
 	inits = append(inits, "B", "BL", "LB", "XB", "BLL", "LBX")
+	// adder scripts: every 1-2 Adds over live / live-then-cancelled / ended;
+	// "DK" cancels the two added contexts in reverse order, "DD" in order
+	addScripts := []string{"", "L", "K", "X", "B", "LL", "LK", "KL", "KK", "DK", "DD", "LX", "XL", "KX", "XK", "XX", "BK"}
 	for _, in := range inits {
-		var live []int
+		live := ""
 		for i := range in {
 			if in[i] == 'L' {
-				live = append(live, i)
+				live += fmt.Sprint(i)
 			}
 		}
-		for m := 0; m < 1<<uint(len(live)); m++ {
-			var mask uint
-			for j, i := range live {
-				if m&(1<<uint(j)) != 0 {
-					mask |= 1 << uint(i)
-				}
-			}
-			for _, ad := range append([]string{""}, append(words("LKX", 1, 2), "B", "BK", "KB")...) {
+		for _, ord := range orders(live) {
+			for _, ad := range addScripts {
 				for _, cn := range []bool{false, true} {
-					for _, sz := range []int{0, 2} {
-						add(scen{init: in, cancels: mask, adds: ad, cancel: cn, sizes: sz})
+					for _, sz := range []int{0, 1, 2} {
+						threads := 0 // harness threads besides main and the watcher
+						for _, b := range []bool{ord != "", ad != "", cn, sz > 0} {
+							if b {
+								threads++
+							}
+						}
+						if sz == 2 && threads > 2 {
+							continue
+						}
+						sc := scen{init: in, cancels: ord, adds: ad, cancel: cn, sizes: sz}
+						ops := len(ord) + 2*len(ad) + sz
+						switch {
+						case threads <= 2:
+							// completed to 3 preemptions
+							add(sc, 3, 3, ops > 4 || len(in) > 2)
+						case threads == 3:
+							// 2 preemptions must complete, 3 while the budget lasts
+							add(sc, 3, 2, ops > 3 || len(in) > 2)
+						case len(in) <= 2 && len(ad) <= 1:
+							// all four thread kinds: 1 preemption must complete
+							add(sc, 2, 1, true)
+						}
 					}
 				}
 			}
